@@ -150,6 +150,15 @@ CHECKS = {
              'fingerprints and known_hosts equal digests/base64 of the reference-built blob; every accepted conformant '
              'wire form (seeds + single-byte substitutions): fingerprints are digests of the wire bytes.',
         design='§5 C16'),
+    'C18': dict(
+        technique='deviation-bounded exhaustive enumeration of RFC-insignificant spellings with a differential oracle',
+        text='For every value within one deviation of the seeds of 13 header / TXT policy types (HSTS, Expect-CT, '
+             'Expect-Staple, HPKP, Cache-Control, Set-Cookie, Content-Type, X-XSS-Protection, CSP, DMARC, MTA-STS, '
+             'TLSRPT, SPF): every spelling with <= 2 (thorough 3) variation rows applied at once, each row citing the RFC '
+             'clause that makes it insignificant; NEL JSON member orders x whitespace; header blocks of <= 3 fields x '
+             'name case x OWS against a 6-line reference splitter: parse(variant) == parse(canonical). Per-value cap '
+             'reported in the evidence.',
+        design='§5 C18'),
     'C17': dict(
         technique='exhaustive explicit-state enumeration (all pairs, triples, permutations) on the real class',
         text='Complete: every ordered pair and triple of all defined versions, every permutation of every '
